@@ -115,7 +115,7 @@ class SimProc:
 class Fault:
     """One planned fault for one process.
 
-    kind: crash | torn_write | enospc | eio_write | eio_read | eacces_open
+    kind: crash | torn_write | enospc | eio_write | short_write | eio_read | eacces_open
     at:   event number of the process at which it fires
     frac: for partial writes, fraction (0..1) of the raw write that persists
     """
@@ -263,6 +263,13 @@ class SimFileIO(_RealFileIO):
                     w.stamp_fd(self.fileno())
                 w.kill_current(self._proc)
                 raise SimCrash(f"torn write {j}/{n} on {self._rel}")
+            if kind == "short_write":
+                # legal for write(2): fewer bytes than asked for, no error; the
+                # caller has to come back with the rest
+                j = max(1, j) if n > 1 else n
+                r = super().write(memoryview(b).cast("B")[:j])
+                w.stamp_fd(self.fileno())
+                return r
             if kind in ("enospc", "eio_write"):
                 self._sticky_error = errno.ENOSPC if kind == "enospc" else errno.EIO
                 if j:
@@ -436,7 +443,7 @@ class World:
     def advance(self, n):
         if n:
             self.clock += n
-            self.sim_seconds += n
+            self.sim_seconds += max(0, n)
 
     def stamp_fd(self, fd):
         ns = self.clock * 1_000_000_000
@@ -494,7 +501,7 @@ class World:
             if n != f.at:
                 return None
             os._exit(137)
-        if kind in ("torn_write", "enospc", "eio_write"):
+        if kind in ("torn_write", "enospc", "eio_write", "short_write"):
             # fires at the first raw write at or after event f.at
             if op != "write":
                 return None
@@ -755,6 +762,11 @@ class World:
                     self.stamp_fd(fd)
                 self.kill_current(owner)
                 raise SimCrash(f"torn os.write {j}/{n} on {rel}")
+            if kind == "short_write":
+                j = max(1, j) if n > 1 else n
+                r = _REAL["os_write"](fd, bytes(memoryview(data).cast("B")[:j]))
+                self.stamp_fd(fd)
+                return r
             if kind in ("enospc", "eio_write"):
                 err = errno.ENOSPC if kind == "enospc" else errno.EIO
                 if j:
